@@ -138,6 +138,7 @@ structure State where
   hRewards : Addr → Int := fun _ => 0             -- RR-holder rewards
   claims : Kind → Nat → Addr → Option Nat := fun _ _ _ => none
   poolIds : List Nat := []                        -- ids of the staking pools `GetAllStakingPools` returns
+  lastPool : Nat := 0                             -- multistaking `LastPoolId` (no rotation writes it)
   vals : Addr → Option Val := fun _ => none
   byCons : Nat → Option Addr := fun _ => none
   queue : List Addr := []                         -- staking Removing/Reactivating queues (operator addresses)
@@ -311,6 +312,19 @@ def movePool (old new : Addr) (S : State) : State :=
       match S.claims .pool 0 new with
       | none => S1
       | some w => { S1 with poolIds := S1.poolIds.filter (fun i => i ≠ w) }
+
+/-- `MsgUpsertStakingPool` of a validator's owner: an existing pool is only (re-)enabled; otherwise the pool gets the id
+`LastPoolId + 1`, which is stored back (x/multistaking/keeper/msg_server.go). `none`: the sender owns no validator. -/
+def newPool (S : State) (a : Addr) : Option State :=
+  match S.vals a with
+  | none => none
+  | some _ =>
+    match S.claims .pool 0 a with
+    | some _ => some S
+    | none =>
+      some { S with lastPool := S.lastPool + 1,
+                    poolIds := (S.lastPool + 1) :: S.poolIds,
+                    claims := fun k s a' => if k = Kind.pool ∧ s = 0 ∧ a' = a then some (S.lastPool + 1) else S.claims k s a' }
 
 /-- `rewards := GetDelegatorRewards(old); if !rewards.IsZero() { Remove(old); Set(new, rewards) }` -/
 def moveRewards (old new : Addr) (S : State) : State :=
